@@ -218,6 +218,10 @@ class _CGMYLevyMeasure(LevyMeasure):
         if alpha == 0:
             return scipy.special.exp1(uh)
 
+        if h == 0 and alpha < 0:
+            # finite activity: the integral down to 0 is the complete gamma integral
+            return scipy.special.gamma(-alpha) * u**alpha
+
         expmuh = np.exp(-uh)
         if alpha >= 1:
             return expmuh / (alpha * h**alpha) - (
